@@ -44,6 +44,8 @@ def run_case(ctx, rep, case, base, model_ok):
     t0 = tablekit.create(path)
     if not case["start_empty"]:
         t0.append_records(tablekit.rows(2, tag="init"))
+    if "delcur" in case["writers"]:
+        t0.append_records(tablekit.rows(1, start=50, tag="second"))
     store = reader.DirStore(path)
     chooser = case["chooser"](rng) if case.get("chooser") else sched.random_chooser(rng, rng.choice([0.0, 0.2, 0.5]))
     S = sched.Sched(chooser, watchdog_s=40)
@@ -70,6 +72,43 @@ def run_case(ctx, rep, case, base, model_ok):
                 with h.new_transaction() as tx:
                     tx.delete_files(["/" + paths[0]])
                     return tx.commit()
+            if wk == "delcur":      # roll the table back: delete the CURRENT snapshot (the pointer moves to an older one)
+                cur = h.metadata_manager.refresh().current_snapshot_id
+                if cur in (None, -1):
+                    return None
+                return h.snapshot_manager.delete_snapshot(cur)
+            if wk.startswith("dirfsync"):    # the directory fsync right after the rename of the pointer (or of the metadata file) fails
+                import os as _os                 # with EIO, once: the rename itself took effect
+                import stat
+                import threading
+                from ..vstore import path_class
+                target = wk.split(":")[1] if ":" in wk else "hint"
+                real_fsync, real_replace, me = _os.fsync, _os.replace, threading.get_ident()
+                st = {"last": None, "fired": False}
+
+                def replace(src, dst, *a_, **k_):
+                    r = real_replace(src, dst, *a_, **k_)
+                    if threading.get_ident() == me:
+                        st["last"] = _os.path.relpath(str(dst), path) if str(dst).startswith(path) else str(dst)
+                    return r
+
+                def failing(fd):
+                    if threading.get_ident() == me and not st["fired"] and st["last"] is not None and path_class(st["last"]) == target:
+                        try:
+                            isdir = stat.S_ISDIR(_os.fstat(fd).st_mode)
+                        except OSError:
+                            isdir = False
+                        if isdir:
+                            st["fired"] = True
+                            raise OSError(5, "injected EIO on the directory fsync after the rename")
+                    return real_fsync(fd)
+                _os.fsync, _os.replace = failing, replace
+                try:
+                    return h.append_records(tablekit.rows(1, start=100 * a, tag=f"w{a}_"))
+                except OSError:
+                    return "failed"
+                finally:
+                    _os.fsync, _os.replace = real_fsync, real_replace
             if wk == "rollback":
                 tx = h.new_transaction().begin()
                 tx.append_data(tablekit.rows(1, start=100 * a, tag=f"w{a}_"))
@@ -194,6 +233,7 @@ def run_case(ctx, rep, case, base, model_ok):
                         rep.diverge("rd.get (_get_all_data_files)", {"request": req, "api": api, **case_rec}, m, impl)
                 cur_start = None
     case["reader_gates"] = len([1 for a, _w in S.trace if a == 11])
+    case["writer_gates"] = len([1 for a, _w in S.trace if a == 1])
     if case["id"] == 0:
         rep.sample({"timeline_rows": [len(v["rows"]) for v in versions], "schedule": case_rec["schedule"][:60]})
     shutil.rmtree(path, ignore_errors=True)
@@ -225,11 +265,63 @@ def _writer_after_k(k):
     return mk
 
 
+def _between_reads(rng):
+    """the reader finishes its first read, then writer 1 runs a whole commit, then the reader reads again through the same handle"""
+    def choose(s, ready):
+        done = len([1 for (a, k, _d) in s.events if a == 11 and k == "read-end"])
+        if done < 1 and 11 in ready:
+            return 11
+        if 1 in ready:
+            return 1
+        return sorted(ready)[0]
+    return choose
+
+
+def _reader_after_k(k):
+    """writer 1 passes k of its gated operations, then the reader runs a whole read, then the writer goes on"""
+    def mk(rng):
+        def choose(s, ready):
+            n = len([1 for a, _w in s.trace if a == 1])
+            if n < k and 1 in ready:
+                return 1
+            if 11 in ready:
+                return 11
+            return sorted(ready)[0]
+        return choose
+    return mk
+
+
 def directed_sweep(ctx, rep, base, model_ok, next_id):
     """every read API × writer kind: a whole commit placed after each of the reader's gated operations in turn"""
     stride = 1 if ctx.thorough else 2
+    # same handle: read, a whole commit of each kind (incl. rolling the table back), read again
     for api in APIS:
-        for wk in ("append", "delete", "multi"):
+        for wk in ("append", "delete", "multi", "delcur", "failed", "rollback", "dirfsync:hint"):
+            c = {"id": next_id, "start_empty": False, "writers": [wk], "readers": [[api, api]], "chooser": _between_reads}
+            next_id += 1
+            try:
+                run_case(ctx, rep, c, base, model_ok)
+                rep.distribution["directed-between-reads"] += 1
+            except sched.Stuck as e:
+                rep.notes.append(f"between-reads case {api}/{wk} stuck: {e}")
+    # the other way round: a whole read placed after each gated operation of a commit (incl. commits that fail half-way)
+    for wk in ("append", "delete", "failed", "dirfsync:hint", "dirfsync:meta"):
+        for api in (APIS if ctx.thorough else ["scan", "row_count", "iter_records"]):
+            k = 0
+            while True:
+                c = {"id": next_id, "start_empty": False, "writers": [wk], "readers": [[api]], "chooser": _reader_after_k(k)}
+                next_id += 1
+                try:
+                    run_case(ctx, rep, c, base, model_ok)
+                except sched.Stuck as e:
+                    rep.notes.append(f"reverse directed case {api}/{wk}/k={k} stuck: {e}")
+                    break
+                rep.distribution["directed-reverse"] += 1
+                if k >= c.get("writer_gates", 0):
+                    break
+                k += stride
+    for api in APIS:
+        for wk in ("append", "delete", "multi", "dirfsync:hint"):
             k = 0
             while True:
                 c = {"id": next_id, "start_empty": False, "writers": [wk], "readers": [[api]], "chooser": _writer_after_k(k)}
@@ -255,7 +347,7 @@ def cases(ctx):
     out.append({"start_empty": False, "writers": ["multi"], "readers": [["scan", "scan_batches", "row_count"]]})
     for _ in range(ctx.budget(40, 1500)):
         out.append({"start_empty": rng.random() < 0.4,
-                    "writers": [rng.choice(["append", "append", "multi", "delete", "rollback", "failed"]) for _ in range(rng.randint(1, 3))],
+                    "writers": [rng.choice(["append", "append", "multi", "delete", "rollback", "failed", "delcur"]) for _ in range(rng.randint(1, 3))],
                     "readers": [[rng.choice(APIS) for _ in range(rng.randint(1, 3))] for _ in range(rng.randint(1, 2))]})
     for i, c in enumerate(out):
         c["id"] = i
